@@ -75,7 +75,10 @@ NeedsE(s, t) == IF s = INT /\ t = STR THEN TRUE
                 ELSE FALSE
 UsesExt(prog) == \E id \in ReachIds(prog, {"A"}, {}) : \E i \in DOMAIN FieldsOf(prog.shape, id) : NeedsE(FieldsOf(prog.shape, id)[i].t, FieldsOf(prog.shape, id \o "2")[i].t)
 \* generation must succeed unless an error would be dropped or a required context is unavailable
-GenOK(prog) == ~(UsesExt(prog) /\ prog.extErr /\ ~prog.rootErr) /\ ~(UsesExt(prog) /\ prog.extCtx /\ ~prog.rootCtx)
+\* a declared method ConvB(source B, ctx Ctx) B2 is the conversion of every B -> B2 position; where no context value can be
+\* obtained (the root method has no such parameter) generation must fail rather than fall back to a generated conversion
+DeclCtxNeeded(prog) == prog.declB = "ctx" /\ "B" \in ReachIds(prog, {"A"}, {}) /\ ~prog.rootCtx
+GenOK(prog) == ~(UsesExt(prog) /\ prog.extErr /\ ~prog.rootErr) /\ ~(UsesExt(prog) /\ prog.extCtx /\ ~prog.rootCtx) /\ ~DeclCtxNeeded(prog)
 
 RECURSIVE SMapN(_,_,_,_), Reached(_,_,_,_,_)
 \* C06: every int -> string position, at any depth, carries E's result (with the context passed unchanged)
